@@ -281,6 +281,39 @@ struct StepOut {
     human: String,
 }
 
+/// Tag of the cases in which a trap is replaced by another command while a
+/// delivery of its signal is caught but its action has not run yet.  yash-rs
+/// forgets such a delivery (TrapSet::set_action resets the pending flag), the
+/// strict oracle rejects that.  The class is only generated when the finding is
+/// registered as open in /verif/known_findings.json under this tag (then the
+/// driver reports KNOWN-FINDING instead of VIOLATION), or with
+/// `--opt retrap=1`; otherwise the generators stay out of it.
+const RETRAP_TAG: &str = "C11-retrap-pending";
+
+thread_local! {
+    static RETRAP_CLASS: std::cell::Cell<bool> = const { std::cell::Cell::new(false) };
+}
+fn retrap_class() -> bool {
+    RETRAP_CLASS.with(|c| c.get())
+}
+fn init_retrap_class(args: &Args) {
+    let forced = args.opt("retrap").map(|v| v != "0");
+    let registered = std::fs::read_to_string("known_findings.json")
+        .or_else(|_| std::fs::read_to_string("/verif/known_findings.json"))
+        .map(|t| {
+            // only the "open" part counts
+            let open = t.split("\"fixed\"").next().unwrap_or("").to_string();
+            open.contains(&format!("\"{RETRAP_TAG}\""))
+        })
+        .unwrap_or(false);
+    RETRAP_CLASS.with(|c| c.set(forced.unwrap_or(registered)));
+}
+
+thread_local! {
+    /// operations applied so far in the current replay (to describe a panic)
+    static OPLOG: RefCell<Vec<String>> = const { RefCell::new(Vec::new()) };
+}
+
 /// Result of replaying a history.
 struct Replay {
     steps: Vec<StepOut>,
@@ -291,6 +324,8 @@ struct Replay {
     max_pending: usize,
     saw_parent: bool,
     saw_refusal: bool,
+    /// a trap was replaced by a command while the caught flag of its signal was set
+    retrap: bool,
     panicked: bool,
 }
 
@@ -414,7 +449,7 @@ async fn apply(env: &mut VEnv, state: &State, rec: &Rec, op: &Op) -> (String, St
 /// `None`; this lets the random generator respect the domain of the model.
 fn replay<F>(univ: &[(i32, Disposition)], mut choose: F) -> (Replay, Vec<Op>)
 where
-    F: FnMut(usize, &[Disposition]) -> Option<Op> + 'static,
+    F: FnMut(usize, &[Disposition], &[bool]) -> Option<Op> + 'static,
 {
     let univ: Vec<(i32, Disposition)> = univ.to_vec();
     let r = std::panic::catch_unwind(std::panic::AssertUnwindSafe(move || {
@@ -437,18 +472,31 @@ where
                     max_pending: 0,
                     saw_parent: false,
                     saw_refusal: false,
+                    retrap: false,
                     panicked: false,
                 };
                 let mut ops = vec![];
                 let mut disps: Vec<Disposition> = univ.iter().map(|(_, d)| *d).collect();
+                let mut pendings: Vec<bool> = univ.iter().map(|_| false).collect();
                 let mut k = 0;
-                while let Some(op) = choose(k, &disps) {
+                OPLOG.with(|l| l.borrow_mut().clear());
+                while let Some(op) = choose(k, &disps, &pendings) {
                     k += 1;
+                    if let Op::SetAction(c, Act::Command(_), _, _) = &op {
+                        if let Some(i) = univ.iter().position(|(x, _)| x == c) {
+                            out.retrap |= pendings[i];
+                        }
+                    }
+                    OPLOG.with(|l| l.borrow_mut().push(op.show()));
                     rec.log.borrow_mut().clear();
                     let (rterm, rshow) = apply(&mut env, &state, &rec, &op).await;
                     out.saw_refusal |= rterm == "RErrIgnored";
                     let (oterm, oshow, d, npend, parent) = observe(&env, &state, &univ);
                     disps = d;
+                    pendings = univ
+                        .iter()
+                        .map(|(c, _)| env.traps.get_state(Condition::from(*c)).0.is_some_and(|t| t.pending))
+                        .collect();
                     out.max_pending = out.max_pending.max(npend);
                     out.saw_parent |= parent;
                     let log: Vec<String> = rec
@@ -505,6 +553,7 @@ where
                 max_pending: 0,
                 saw_parent: false,
                 saw_refusal: false,
+                retrap: false,
                 panicked: true,
             },
             vec![],
@@ -536,6 +585,19 @@ fn emit(w: &mut CasesWriter, stream: &str, univ: &[(i32, Disposition)], rep: &Re
     if rep.max_pending > 0 {
         w.count("saw:pending");
     }
+    if rep.panicked {
+        let init: Vec<String> =
+            univ.iter().map(|(c, d)| format!("{}:{}", sig_name(*c), d_show(*d))).collect();
+        let ops = OPLOG.with(|l| l.borrow().clone());
+        let json = format!(
+            "{{\"stream\":{},\"initial\":{},\"panicked_after\":[{}]}}",
+            json_str(stream),
+            json_str(&init.join(" ")),
+            ops.iter().map(|o| json_str(o)).collect::<Vec<_>>().join(",")
+        );
+        w.push("(CPanic 0)", &json, &["panic"], None);
+        return;
+    }
     let steps: Vec<&str> = rep.steps.iter().map(|s| s.term.as_str()).collect();
     let term = format!("(CTrap {} {})", univ_coq(univ), coq::list(&steps));
     let hist: Vec<String> = rep.steps.iter().map(|s| json_str(&s.human)).collect();
@@ -555,21 +617,35 @@ fn emit(w: &mut CasesWriter, stream: &str, univ: &[(i32, Disposition)], rep: &Re
     } else {
         None
     };
-    let tags: Vec<&str> = if rep.panicked { vec!["panic"] } else { vec![] };
+    let tags: Vec<&str> = if rep.retrap { vec![RETRAP_TAG] } else { vec![] };
+    if rep.retrap {
+        w.count("class:retrap-while-pending");
+    }
     w.push(&term, &json, &tags, key);
 }
 
 fn run_fixed(w: &mut CasesWriter, stream: &str, univ: &[(i32, Disposition)], ops: &[Op]) {
     let v = ops.to_vec();
-    let (rep, done) = replay(univ, move |k, _| v.get(k).cloned());
+    let (rep, done) = replay(univ, move |k, _, _| v.get(k).cloned());
     emit(w, stream, univ, &rep, &done);
 }
 
 const ALL_CONDS: [i32; 13] =
     [0, SIGHUP, SIGINT, SIGQUIT, SIGKILL, SIGTERM, SIGCHLD, SIGSTOP, SIGTSTP, SIGTTIN, SIGTTOU, SIGUSR1, SIGUSR2];
 
+/// Would this operation replace the trap of a signal by a command while its
+/// caught flag is set?
+fn is_retrap(op: &Op, univ: &[(i32, Disposition)], pendings: &[bool]) -> bool {
+    match op {
+        Op::SetAction(c, Act::Command(_), _, _) => {
+            univ.iter().position(|(x, _)| x == c).is_some_and(|i| pendings[i])
+        }
+        _ => false,
+    }
+}
+
 fn deliverable(c: i32, d: Disposition) -> bool {
-    c != 0 && (d != Disposition::Default || c == SIGCHLD)
+    c != 0 && c != SIGKILL && c != SIGSTOP && (d != Disposition::Default || c == SIGCHLD)
 }
 
 /// The operations possible over a universe (with command ids `cmds`, the
@@ -639,7 +715,9 @@ fn random_history(w: &mut CasesWriter, r: &mut Rng, thorough: bool) {
     let has = move |c: i32| u.iter().any(|(x, _)| *x == c);
     let u2 = univ.clone();
     let mut tag = 0;
-    let (rep, done) = replay(&univ, move |k, disps| {
+    let gate = !retrap_class();
+    let u3 = univ.clone();
+    let (rep, done) = replay(&univ, move |k, disps, pendings| {
         if k >= len {
             return None;
         }
@@ -686,6 +764,9 @@ fn random_history(w: &mut CasesWriter, r: &mut Rng, thorough: bool) {
                 96..=97 => Op::DisableStop,
                 _ => Op::DisableAll,
             };
+            if gate && is_retrap(&op, &u3, pendings) {
+                continue;
+            }
             if op.needs().iter().all(|c| has(*c)) {
                 return Some(op);
             }
@@ -780,11 +861,22 @@ fn corpus(w: &mut CasesWriter) {
         &[Op::EnableTerm, Op::EnterSubshell(true, false), Op::SetAction(SIGINT, c1, 1, false), Op::SetAction(SIGINT, c1, 2, true)],
     );
     // trap replaced while a delivery is waiting
+    if retrap_class() {
+        run_fixed(
+            w,
+            "corpus",
+            &[(SIGUSR1, D)],
+            &[Op::SetAction(SIGUSR1, c1, 1, false), Op::Deliver(SIGUSR1), Op::SetAction(SIGUSR1, c2, 2, false), Op::TakeAny],
+        );
+    } else {
+        w.count("gated:retrap-while-pending-class-skipped");
+    }
+    // ... by a non-command: the delivery is dropped
     run_fixed(
         w,
         "corpus",
         &[(SIGUSR1, D)],
-        &[Op::SetAction(SIGUSR1, c1, 1, false), Op::Deliver(SIGUSR1), Op::SetAction(SIGUSR1, c2, 2, false), Op::TakeAny],
+        &[Op::SetAction(SIGUSR1, c1, 1, false), Op::Deliver(SIGUSR1), Op::SetAction(SIGUSR1, Act::Ignore, 2, false), Op::TakeAny],
     );
 }
 
@@ -950,6 +1042,8 @@ mod script {
         pub bad: Option<String>,
         pub trap_runs: usize,
         pub procs: usize,
+        /// a trap was replaced by a command while a delivery of its signal was outstanding
+        pub retrap: bool,
     }
 
     pub fn script_text(tbl: &[(u32, Vec<B>)], main: &[C], newline: bool) -> String {
@@ -965,19 +1059,50 @@ mod script {
         text
     }
 
+    /// Runs `f`; if it does not return within `secs` seconds (the shell loops
+    /// inside one scheduler step, which the round budget of `vsh` cannot see),
+    /// reports the script on stderr and ends the harness with status 4, which
+    /// the driver turns into a broken obligation.
+    fn with_watchdog<T>(text: &str, secs: u64, f: impl FnOnce() -> T) -> T {
+        let (tx, rx) = std::sync::mpsc::channel::<()>();
+        let script = text.to_string();
+        let h = std::thread::spawn(move || {
+            if rx.recv_timeout(std::time::Duration::from_secs(secs)).is_err() {
+                eprintln!("C11 harness: the shell did not finish this script within {secs} s (hang):\n{script}");
+                std::process::exit(4);
+            }
+        });
+        let r = f();
+        tx.send(()).ok();
+        h.join().ok();
+        r
+    }
+
     pub fn run(text: &str) -> Run {
-        let (o, _) = run_shell(
+        let (o, _) = with_watchdog(text, 60, || run_shell_script(text));
+        finish_run(text, o)
+    }
+
+    fn run_shell_script(text: &str) -> (yv_harness::vsh::Outcome, Option<State>) {
+        run_shell(
             RunOpts { argv: vec!["-c".into(), text.to_string()], ..Default::default() },
             |env, _| {
                 env.builtins.insert("p", Builtin::new(Type::Mandatory, p_main));
                 env.builtins.insert("raise", Builtin::new(Type::Mandatory, raise_main));
                 env.builtins.insert("mark", Builtin::new(Type::Mandatory, mark_main));
             },
-        );
+        )
+    }
+
+    fn finish_run(text: &str, o: yv_harness::vsh::Outcome) -> Run {
         let mut pids: Vec<String> = vec![];
         let mut trace_coq = vec![];
         let mut trace_show = vec![];
         let mut trap_runs = 0;
+        // per process: current action of each signal, signals with a delivery outstanding
+        let mut cur: HashMap<usize, HashMap<i32, Tact>> = HashMap::new();
+        let mut owed: HashMap<usize, Vec<i32>> = HashMap::new();
+        let mut retrap = false;
         for it in &o.trace {
             let pid = it.args.last().cloned().unwrap_or_default();
             let idx = if it.in_main {
@@ -993,18 +1118,39 @@ mod script {
             };
             let before = it.status as u64;
             let a = |i: usize| it.args.get(i).cloned().unwrap_or_default();
+            if idx != 0 && !cur.contains_key(&idx) {
+                // a subshell starts with the command traps reset
+                let mut t = cur.get(&0).cloned().unwrap_or_default();
+                for v in t.values_mut() {
+                    if matches!(v, Tact::Body(_)) {
+                        *v = Tact::Default;
+                    }
+                }
+                cur.insert(idx, t);
+            }
+            let pcur = cur.entry(idx).or_default();
+            let powed = owed.entry(idx).or_default();
             let (ev, show) = match it.kind.as_str() {
                 "p" => {
                     let k: u64 = a(0).parse().unwrap_or(0);
                     if k >= 1000 {
                         trap_runs += 1;
+                        let id = (k - 1000) as u32;
+                        if let Some(pos) = powed.iter().position(|sg| pcur.get(sg) == Some(&Tact::Body(id))) {
+                            powed.remove(pos);
+                        }
                     }
                     (
                         format!("(EProbe {} {} {})", coq::n(k), coq::n(before), coq::n(a(1).parse().unwrap_or(0))),
                         format!("p{k}[$?={before}]->{}", a(1)),
                     )
                 }
-                "raise" => (
+                "raise" => {
+                    let sg = number_of(&a(0));
+                    if matches!(pcur.get(&sg), Some(Tact::Body(_))) && !powed.contains(&sg) {
+                        powed.push(sg);
+                    }
+                    (
                     format!(
                         "(ERaise {} {} {})",
                         coq::n(number_of(&a(0)) as u64),
@@ -1012,13 +1158,23 @@ mod script {
                         coq::n(a(1).parse().unwrap_or(0))
                     ),
                     format!("raise {}[$?={before}]->{}", a(0), a(1)),
-                ),
+                )
+                }
                 "mark" => {
                     let act = match a(1).as_str() {
                         "-" => Tact::Default,
                         "ign" => Tact::Ignore,
                         id => Tact::Body(id.parse().unwrap_or(0)),
                     };
+                    let sg = number_of(&a(0));
+                    if let Some(pos) = powed.iter().position(|x| *x == sg) {
+                        if matches!(act, Tact::Body(_)) {
+                            retrap = true;
+                        } else {
+                            powed.remove(pos);
+                        }
+                    }
+                    pcur.insert(sg, act);
                     (
                         format!("(EMark {} {} {})", coq::n(number_of(&a(0)) as u64), act.coq(), coq::n(before)),
                         format!("trap {} {}[$?={before}]", a(1), a(0)),
@@ -1044,6 +1200,7 @@ mod script {
             bad,
             trap_runs,
             procs: pids.len(),
+            retrap,
         }
     }
 
@@ -1063,13 +1220,17 @@ mod script {
             })
             .collect();
         let mainc: Vec<String> = main.iter().map(|c| c.coq()).collect();
-        let term = format!(
-            "(CScript {} {} {} {})",
-            coq::list(&tblc),
-            coq::list(&mainc),
-            coq::list(&r.trace_coq),
-            coq::b(r.dead)
-        );
+        let term = if r.bad.is_some() {
+            "(CPanic 1)".to_string()
+        } else {
+            format!(
+                "(CScript {} {} {} {})",
+                coq::list(&tblc),
+                coq::list(&mainc),
+                coq::list(&r.trace_coq),
+                coq::b(r.dead)
+            )
+        };
         let json = format!(
             "{{\"stream\":{},\"script\":{},\"trace\":{},\"main_shell_killed\":{}{}}}",
             json_str(stream),
@@ -1079,7 +1240,11 @@ mod script {
             r.bad.as_ref().map_or(String::new(), |b| format!(",\"abnormal\":{}", json_str(b)))
         );
         let key = if r.trap_runs > 0 { Some(r.text.clone()) } else { None };
-        let tags: Vec<&str> = if r.bad.is_some() { vec!["abnormal"] } else { vec![] };
+        let mut tags: Vec<&str> = if r.bad.is_some() { vec!["abnormal"] } else { vec![] };
+        if r.retrap {
+            tags.push(RETRAP_TAG);
+            w.count("class:retrap-while-pending");
+        }
         w.push(&term, &json, &tags, key);
     }
 
@@ -1140,10 +1305,13 @@ mod script {
                             // change a trap from inside an action
                             let t = SIGS[self.r.below(SIGS.len())].0;
                             let cands = self.bodies_for(t);
+                            // installing a command from inside an action can replace a
+                            // trap whose delivery is outstanding: only when that class
+                            // is generated
                             let a = match self.r.below(3) {
                                 0 => Tact::Default,
                                 1 => Tact::Ignore,
-                                _ if !cands.is_empty() => Tact::Body(*self.r.pick(&cands)),
+                                _ if !cands.is_empty() && retrap_class() => Tact::Body(*self.r.pick(&cands)),
                                 _ => Tact::Ignore,
                             };
                             B::Trap(t, a)
@@ -1310,8 +1478,8 @@ mod script {
             ],
             true,
         );
-        // the trap is replaced / removed inside another action while a
-        // delivery is waiting
+        // the trap is replaced inside another action while a delivery is waiting
+        if retrap_class() {
         let tbl = vec![
             (1, vec![Probe(1001, 0), Raise(usr2, 1), Trap(usr2, Tact::Body(3)), Probe(12, 2)]),
             (2, vec![Probe(1002, 0)]),
@@ -1322,6 +1490,21 @@ mod script {
             "script-corpus",
             &tbl,
             &[trap(usr1, Tact::Body(1)), trap(usr2, Tact::Body(2)), raise(usr1, 4), p(1, 0), raise(usr2, 0), p(2, 0)],
+            false,
+        );
+        } else {
+            w.count("gated:retrap-while-pending-class-skipped");
+        }
+        // ... removed inside another action: the delivery is dropped
+        let tbl = vec![
+            (1, vec![Probe(1001, 0), Raise(usr2, 1), Trap(usr2, Tact::Default), Probe(12, 2)]),
+            (2, vec![Probe(1002, 0)]),
+        ];
+        emit(
+            w,
+            "script-corpus",
+            &tbl,
+            &[trap(usr1, Tact::Body(1)), trap(usr2, Tact::Body(2)), raise(usr1, 4), p(1, 0)],
             false,
         );
         // untrapped signal: the shell dies
@@ -1341,6 +1524,8 @@ fn main() {
     let mut rng = Rng::new(args.seed);
     let mut w = CasesWriter::new(&args, "Yv.C11.Run", 150);
     use Disposition::{Default as D, Ignore as I};
+    init_retrap_class(&args);
+    w.count(if retrap_class() { "class:retrap-while-pending:generated" } else { "class:retrap-while-pending:gated-off" });
 
     corpus(&mut w);
 
@@ -1379,7 +1564,7 @@ fn main() {
         bfs(&mut w, "bfs2:USR1+USR2", &univ, &alphabet(&univ, &[1], &[false]), 3000);
     }
 
-    let n = args.scale(700, 15000);
+    let n = args.scale(500, 10000);
     for k in 0..n {
         let mut r = rng.fork(k as u64);
         random_history(&mut w, &mut r, args.thorough());
@@ -1387,7 +1572,7 @@ fn main() {
 
     // stream B: scripts
     script::corpus(&mut w);
-    let n = args.scale(500, 12000);
+    let n = args.scale(500, 10000);
     for k in 0..n {
         let mut r = rng.fork(1_000_000 + k as u64);
         script::random(&mut w, &mut r);
@@ -1407,7 +1592,7 @@ fn main() {
 fn bfs(w: &mut CasesWriter, stream: &str, univ: &[(i32, Disposition)], alpha: &[Op], max_states: usize) {
     let mut seen: BTreeSet<String> = BTreeSet::new();
     let mut queue: VecDeque<Vec<Op>> = VecDeque::new();
-    let (rep0, _) = replay(univ, |_, _| None);
+    let (rep0, _) = replay(univ, |_, _, _| None);
     seen.insert(rep0.key.clone());
     queue.push_back(vec![]);
     let mut states = 0;
@@ -1418,7 +1603,8 @@ fn bfs(w: &mut CasesWriter, stream: &str, univ: &[(i32, Disposition)], alpha: &[
             ops.push(op.clone());
             let v = ops.clone();
             let u = univ.to_vec();
-            let (rep, done) = replay(univ, move |k, disps| {
+            let gate = !retrap_class();
+            let (rep, done) = replay(univ, move |k, disps, pendings| {
                 let op = v.get(k)?;
                 if let Op::Deliver(c) = op {
                     let i = u.iter().position(|(x, _)| x == c).unwrap();
@@ -1426,10 +1612,13 @@ fn bfs(w: &mut CasesWriter, stream: &str, univ: &[(i32, Disposition)], alpha: &[
                         return None;
                     }
                 }
+                if gate && is_retrap(op, &u, pendings) {
+                    return None;
+                }
                 Some(op.clone())
             });
             if done.len() != ops.len() {
-                continue; // delivery outside the domain
+                continue; // delivery outside the domain, or the gated class
             }
             emit(w, stream, univ, &rep, &done);
             if seen.len() < max_states && seen.insert(rep.key.clone()) {
